@@ -780,7 +780,7 @@ class SysRun(object):
             self.open_gates()
             if self.shared_pool:
                 # notifications still queued in the shared pool would be discarded by server_close(): let them run first
-                s.emit("shared.joined", bool(self.user_pool.join(FAR)))
+                s.emit("shared.joined", bool(self.user_pool.join(self.drain_bound())))
             if is_net and p.get("second_server") is True and life == "serve":
                 # another server of the same class in the same process, closed without ever serving, while this one serves
                 self.second_server()
@@ -835,10 +835,24 @@ class SysRun(object):
         self.lifecycle_op("server_close", other.server_close)
         self.s.emit("second.fileno", other.socket.fileno())
 
+    def drain_bound(self):
+        """Long enough for everything the clients asked for to have run one after the other: the methods' own (virtual)
+        durations count, a queue of slow notifications behind a single worker takes their sum."""
+        total = 0.0
+        methods = self.p.get("methods", {})
+        for c in self.p.get("clients", []):
+            for op in c.get("ops", []):
+                ents = op[1] if op[0] == "batch" else [op]
+                for e in ents:
+                    if len(e) > 1 and isinstance(e[1], (str, list)):
+                        name = e[1] if isinstance(e[1], str) else ".".join(str(x) for x in e[1])
+                        total += float(methods.get(name, {}).get("d") or 0.0)
+        return FAR + total
+
     def npool_drain(self):
         s = self.s
         # the notification pool belongs to the user: wait until its queue is done, then stop it
-        ok = self.npool.join(FAR)
+        ok = self.npool.join(self.drain_bound())
         s.emit("npool.joined", bool(ok))
         self.npool.stop()
 
